@@ -582,8 +582,12 @@ impl<TokenIter: Iterator<Item = Result<Token>>> Parser<TokenIter> {
                                         syntax_env.get(&first.expect_symbol()?)
                                     {
                                         let remained = DatumBody::Pair(pair).locate(location);
-                                        let expanded_datum =
+                                        let mut expanded_datum =
                                             transformer.transform(keyword, remained)?;
+                                        // an expansion whose template gives no location stands
+                                        // where the macro use stood
+                                        expanded_datum.location =
+                                            expanded_datum.location.or(location);
                                         Self::transform_to_statement(expanded_datum, syntax_env)?
                                     } else {
                                         Self::transform_procedure_call(
